@@ -288,8 +288,13 @@ pub fn control_fmt_table(fs: &[&str]) -> String {
     let c = parse_cfg(fs[1]);
     let rel = |v: &str| -> Option<String> {
         let v = v.to_string();
-        std::panic::catch_unwind(move || Relations::from_str(&v).ok().map(|r| r.wrap_and_sort().to_string()))
-            .unwrap_or(None)
+        // as format_field reads it since /repo's fix "Control::wrap_and_sort panicked on a
+        // relationship field with a substitution variable": substitution variables allowed, no error tolerated
+        std::panic::catch_unwind(move || {
+            let (r, errs) = Relations::parse_relaxed(&v, true);
+            if errs.is_empty() { Some(r.wrap_and_sort().to_string()) } else { None }
+        })
+        .unwrap_or(None)
     };
     let d = match Deb822::from_str(&s) {
         Ok(d) => d,
